@@ -1,0 +1,12 @@
+//go:build verif
+
+package metrics
+
+// Contracts for the verification tooling (build tag "verif"). Comment-only: never compiled into the daemon.
+
+//@ func (*PrometheusMetricsProvider).IncLogins
+//@   requires p != nil && p.remoteLogins != nil
+//@   modifies ctr
+//@   ensures[sum] ctrsum == old(ctrsum) + 1
+//@   ensures[label] ctr(loginType, outcome) == old(ctr(loginType, outcome)) + 1
+//@   ensures[others] forall a string, b string :: !(a == loginType && b == outcome) ==> ctr(a, b) == old(ctr(a, b))
